@@ -392,7 +392,10 @@ class Reshape(ArrayExpr):
         sliced_input = new_collection(self.array)[tuple(input_index)]
         if sliced_input.ndim == 0 or not new_out_shape:
             return None  # integer indices consumed every axis: nothing left to reshape
-        result = Reshape(sliced_input.expr, new_out_shape)
+        # Go through ``reshape`` rather than ``Reshape`` directly: the sliced
+        # array may now be a single block or already have the target shape,
+        # which ``reshape_rechunk`` does not handle (e.g. (1, 1, 1) -> (1,)).
+        result = reshape(sliced_input, new_out_shape).expr
 
         # Re-apply None insertions if any using expand_dims
         if none_positions:
